@@ -209,7 +209,7 @@ contract(SOL + "canopy_cover.py", "canopy_cover",
               "of early senescence, positive adjusted rates) that is not proved inductive here: those safety clauses are served by the bounded C16 check only",
          props=("C04", "C05", "C12", "C16"))
 
-# ----------------------------------------------------------------------------- root_development  (TRUSTED contract: body not verified yet)
+# ----------------------------------------------------------------------------- root_development  (summary contract ASSUMED at the daily step's call site; body verified below)
 contract(SOL + "root_development.py", "root_development",
          params=dict(Crop=OBJ("Crop"), prof=OBJ("SoilProfile"), NewCond_DAP="Int", NewCond_Zroot="Real", NewCond_DelayedCDs="Int", NewCond_GDDcum="Real",
                      NewCond_DelayedGDDs="Real", NewCond_TrRatio="Real", NewCond_th=ARR("Real", "n"), NewCond_CC="Real", NewCond_CC_NS="Real",
@@ -223,11 +223,26 @@ contract(SOL + "root_development.py", "root_development",
                   ("C05.root_trusted_depth", "max(Zroot, Crop.Zmin) + 0.005 <= prof.dzsum[n-1]")],
          assigns=[],
          trusted=True,
-         note="ASSUMED contract: root_development is not under proof (known finding C05: roots shrink on restrictive layers); only the frame (no heap effect) "
-              "and the facts the other callees need about the returned depth are assumed",
+         note="ASSUMED summary used at the call site of the daily step (no heap effect; the facts the other callees need about the returned depth). The first two clauses "
+              "are also PROVED on the real body (root_development#body: C05.root_zero_out_of_season, C05.root_rcor_at_least_one_in_season / root_rcor_kept_out_of_season); "
+              "the third (the depth stays inside the profile) depends on the whole-history upper envelope Zroot <= Zmax and on profile deepening at initialisation: bounded only",
          props=("C05",))
 
-# root_development, real body: the walk through restrictive layers (`if Zr > Crop.Zmin:` - index-array sums over the layers) is a TRUSTED block
+# the layer walk of root_development: ASSUMED contract (index-array sums over the soil horizons are outside the engine's subset). For the profile of the
+# call the result is a function rdepth(Zr, Zmin) of the potential depth; the solver front end instantiates what is assumed about it: between Zmin and Zr,
+# non-decreasing in Zr. The assumption is evaluated on the real helper by the bounded module e3/root_helper.py (never counted as proved).
+contract(SOL + "root_development.py", "_depth_after_restrictive_horizons",
+         params=dict(Zr="Real", Zmin="Real", prof=OBJ("SoilProfile"), Soil_nLayer="Int"),
+         requires=[("walk_starts_at_or_below_zmin", "Zr >= Zmin")],
+         returns=[("ZrOUT", "Real")],
+         ensures=[("C05.layer_walk_is_a_function", "ZrOUT == rdepth(Zr, Zmin)"),
+                  ("C05.layer_walk_range", "Zmin <= ZrOUT and ZrOUT <= Zr")],
+         assigns=[],
+         trusted=True,
+         note="ASSUMED contract of the helper (bounded-checked by e3/root_helper.py): pure, result between Zmin and Zr, non-decreasing in Zr for a fixed profile",
+         props=("C05",))
+
+# root_development, real body, verified against the assumed contract of its layer-walk helper
 contract(SOL + "root_development.py", "root_development#body",
          params=dict(Crop=OBJ("Crop"), prof=OBJ("SoilProfile"), NewCond_DAP="Int", NewCond_Zroot="Real", NewCond_DelayedCDs="Int", NewCond_GDDcum="Real",
                      NewCond_DelayedGDDs="Real", NewCond_TrRatio="Real", NewCond_th=ARR("Real", "n"), NewCond_CC="Real", NewCond_CC_NS="Real",
@@ -240,7 +255,9 @@ contract(SOL + "root_development.py", "root_development#body",
              "Crop.Zmin > 0 and Crop.Zmin <= Crop.Zmax", "Crop.fshape_r > 0", "0 <= Crop.PctZmin and Crop.PctZmin <= 100",
              "Crop.MaxRooting > Crop.Emergence and Crop.Emergence >= 0",
              "0 <= Crop.p_up[1] and Crop.p_up[1] < 1", "Crop.fshape_w[1] != 0", "Crop.fshape_ex != 0",
-             "Crop.SxBot > 0", "NewCond_Zroot >= 0",
+             "Crop.SxBot > 0", "Crop.SxTop >= 0", "NewCond_Zroot >= 0", "gdd >= 0", "0 <= NewCond_TrRatio",
+             # state invariant carried from the previous day (established by this function: clause C05.root_at_least_zmin)
+             "implies(growing_season and NewCond_DAP != 1, NewCond_Zroot >= Crop.Zmin)",
              "implies(growing_season, max(NewCond_Zroot, Crop.Zmin) + Crop.Zmax <= prof.dzsum[n-1])",
          ],
          returns=[("Zroot", "Real"), ("rCor", "Real")],
@@ -248,15 +265,24 @@ contract(SOL + "root_development.py", "root_development#body",
                   ("C05.root_not_below_water_table", "implies(growing_season and water_table_presence == 1 and NewCond_zGW > 0, Zroot <= max(NewCond_zGW, Crop.Zmin))"),
                   ("C05.root_no_expansion_before_germination", "implies(growing_season and not NewCond_Germination, Zroot <= ite(NewCond_DAP == 1, Crop.Zmin, max(NewCond_Zroot, Crop.Zmin)))"),
                   ("C05.root_no_expansion_in_early_senescence", "implies(growing_season and NewCond_CC <= 0 and NewCond_CC_NS > 0.5, Zroot <= ite(NewCond_DAP == 1, Crop.Zmin, max(NewCond_Zroot, Crop.Zmin)))"),
+                  ("C05.root_at_least_zmin", "implies(growing_season, Zroot >= Crop.Zmin)"),
+                  ("C05.root_never_shrinks_without_water_table", "implies(growing_season and not (water_table_presence == 1 and NewCond_zGW > 0), Zroot >= ite(NewCond_DAP == 1, Crop.Zmin, NewCond_Zroot))"),
+                  ("C05.root_shrinks_only_to_the_water_table", "implies(growing_season and NewCond_DAP != 1 and Zroot < NewCond_Zroot, water_table_presence == 1 and Zroot >= NewCond_zGW)"),
+                  ("C05.root_daily_gain_at_most_potential", "implies(growing_season, Zroot <= ite(NewCond_DAP == 1, Crop.Zmin, NewCond_Zroot) + Crop.Zmax - Crop.Zmin)"),
+                  ("C05.root_rcor_at_least_one_in_season", "implies(growing_season, rCor >= 1)"),
+                  ("C05.root_rcor_kept_out_of_season", "implies(not growing_season, rCor == NewCond_rCor)"),
                   ],
          assigns=[],
          options=dict(function="root_development",
-                      # two sites depend on the output of the trusted block (the new depth is positive and inside the profile): bounded C16 check only
-                      tier_b_sites=[("argwhere_witness", "prof.dzsum >= ZiTmp"), ("div_nonzero", "ZrPot / NewCond_Zroot")],
-                      opaque_blocks=[dict(test_prefix="Zr > Crop.Zmin", havoc=["Zr", "ZrOld", "dZr"])]),
-         note="the layer walk (helper _depth_after_restrictive_horizons: index-array sums over the layers) is a trusted block: its effect on the potential depths Zr, ZrOld and "
-              "the increment dZr is havocked, so the envelope Zmin <= Zroot <= Zmax and 'never shrinks' are NOT claimed by E1 (bounded monitors; the shrink defect on "
-              "restrictive layers was repaired); the water-table clamp and the no-expansion clauses are proved",
+                      # assert/havoc/assume cuts: only "the increment is non-negative and at most the width of the envelope" is carried from one stage of
+                      # the computation (layer walk -> transpiration reduction -> dry-soil reduction -> flags) to the next
+                      cuts=[dict(before="if NewCond_TrRatio < 0.9999", **{"assert": ["dZr >= 0", "dZr <= Crop.Zmax - Crop.Zmin"]}, havoc=["dZr"]),
+                            dict(before="if dZr > 0.001", **{"assert": ["dZr >= 0", "dZr <= Crop.Zmax - Crop.Zmin"]}, havoc=["dZr"]),
+                            dict(before="if NewCond_CC <= 0 and NewCond_CC_NS > 0.5", **{"assert": ["dZr >= 0", "dZr <= Crop.Zmax - Crop.Zmin"]}, havoc=["dZr"])]),
+         note="the layer walk (helper _depth_after_restrictive_horizons) is called through its ASSUMED contract (function of the potential depth, between Zmin and "
+              "that depth, non-decreasing; bounded-checked), so the statements around it - which depth is converted, the increment, the stress reductions, the "
+              "clamps - are verified: never below Zmin, never shrinks except onto a water table, water-table clamp, no expansion before germination / in early "
+              "senescence. The upper envelope Zroot <= Zmax is a whole-history invariant (bounded monitors)",
          props=("C05", "C19"))
 
 # ----------------------------------------------------------------------------- initialisers that are plain scalar loops: calculate_HIGC, calculate_HI_linear
